@@ -15,6 +15,8 @@ CONSTANTS
   AllowCrash = FALSE
   FixJournalNoPS = TRUE
   FixModeOnOpen = TRUE
+  AllowHoles = FALSE
+  FixHoles = TRUE
   AllowFreeReuse = TRUE
   AllowFromWal = TRUE
   FixModeSwitch = TRUE
